@@ -29,10 +29,12 @@ def world(rng):
         f"reg.add('code_time', {s[1]!r}, D.time, prefixable=True)\n"
         "a0 = Unit('code_length', registry=reg); t0 = Unit('code_time', registry=reg); kt0 = Unit('kcode_time', registry=reg)\n"
         "v0 = a0/t0; q0 = a0**2; c0 = Unit('code_length*s**-1', registry=reg); r0 = Unit('code_length**(1/2)*g', registry=reg)\n"
+        "x0 = a0**2/Unit('cm', registry=reg); y0 = Unit('km*code_length**-1*code_time', registry=reg)\n"
         # the registry is edited after units were handed out (yt: set_code_units)
         f"reg.modify('code_length', {s[2]!r}); reg.modify('code_time', {s[3]!r})\n"
         "a1 = Unit('code_length', registry=reg); t1 = Unit('code_time', registry=reg); kt1 = Unit('kcode_time', registry=reg)\n"
         "v1 = a1/t1; q1 = a1**2; c1 = Unit('code_length*s**-1', registry=reg); r1 = Unit('code_length**(1/2)*g', registry=reg)\n"
+        "x1 = a1**2/Unit('cm', registry=reg); y1 = Unit('km*code_length**-1*code_time', registry=reg)\n"
         # the symbol is removed and added again with another dimension
         f"reg.remove('code_length'); reg.add('code_length', {s[4]!r}, D.mass)\n"
         "a2 = Unit('code_length', registry=reg); v2 = a2/t1; q2 = a2**2; c2 = Unit('code_length*s**-1', registry=reg)\n"
@@ -54,6 +56,8 @@ def world(rng):
         [("q0", "pre-modify"), ("q1", "post-modify"), ("q2", "re-added"), ("q3", "explicit"), ("q4", "other-registry")],
         [("c0", "pre-modify"), ("c1", "post-modify"), ("c2", "re-added"), ("c4", "other-registry")],
         [("r0", "pre-modify"), ("r1", "post-modify")],
+        [("x0", "pre-modify"), ("x1", "post-modify")],
+        [("y0", "pre-modify"), ("y1", "post-modify")],
         [("m0", "registry"), ("m1", "explicit")],
         [("g0", "registry"), ("g1", "explicit")],
     ]
@@ -76,6 +80,32 @@ def run_worlds(chk, nworlds, model_lines, model_expect):
         src, groups = world(rng)
         ns = {}
         exec(HEADER + src, ns)  # noqa: S102 - our own generated history
+        # simplify() / as_coeff_unit() keep what the unit denotes — its STORED scale and dimension, which for a unit older
+        # than a registry edit is not what the registry would resolve the expression to today
+        for g in groups:
+            for xn, xk in g:
+                u = ns[xn]
+                chk.case(("world-simplify", wi, xn))
+                chk.count("world-simplify:" + xk)
+                hdr = src + f"u = {xn}\n"
+                body = ("w = Unit(u.expr, base_value=u.base_value, base_offset=u.base_offset, dimensions=u.dimensions, registry=u.registry)\n"
+                        "s = w.simplify(); c, cu = s.as_coeff_unit()\n"
+                        "assert math.isclose(s.base_value, u.base_value, rel_tol=1e-12) and s.dimensions == u.dimensions and s == u, (s.base_value, u.base_value)\n"
+                        "assert math.isclose(c*cu.base_value, u.base_value, rel_tol=1e-9) and cu.dimensions == u.dimensions, (c, cu.base_value, u.base_value)\n"
+                        "assert s.expr.as_coeff_Mul()[1] == cu.expr and math.isclose(float(s.expr.as_coeff_Mul()[0]), c)\n")
+                ns2 = {"u": u, "Unit": ns["Unit"], "math": math}
+                try:
+                    exec(body, ns2)  # noqa: S102
+                except Exception as e:  # noqa: BLE001
+                    chk.fail(f"simplify-stored|{xk}", f"simplify()/as_coeff_unit() changed what a unit denotes (stored scale/dimension) [{core.exc_name(e)}]",
+                             {"python": HEADER + hdr + body})
+                    continue
+                try:
+                    fs = gen.unit_wire_fields(ns2["s"])
+                except ValueError:
+                    continue
+                model_lines.append("\t".join(["c05.ascoeff"] + fs))
+                model_expect.append(("c05.ascoeff", f"{xn}({xk}).simplify()", "", ("ok", (ns2["c"], ns2["cu"]))))
         pairs = []
         for g in groups:
             pairs += [(x, y, True) for x, y in itertools.product(g, repeat=2)]
